@@ -102,6 +102,8 @@ static std::string step(const std::vector<std::string> &t) {
             int fd = ::open(under(unhex(t[2])).c_str(), O_WRONLY | O_CREAT | O_TRUNC, 0644);
             if (fd < 0) return "!harness-cannot-create";
             size_t n = std::stoul(t[3]);
+            // large files (the property's `empty and large files`) are created sparse: same size for ftell/stat, no disk blocks
+            if (n >= (size_t(1) << 24)) { bool ok = ::ftruncate(fd, static_cast<off_t>(n)) == 0; ::close(fd); return ok ? "ok" : "!harness-cannot-create"; }
             std::vector<char> block(65536, 'x');
             while (n > 0) {
                 size_t k = std::min(n, block.size());
